@@ -346,8 +346,8 @@ fn set_inner(
         let value = if rest.is_empty() {
             value
         } else {
-            let inner = match map.remove(key) {
-                Some(Value::Map(inner)) => inner,
+            let inner = match map.get(key) {
+                Some(Value::Map(inner)) => inner.clone(),
                 _ => ValueMap::new(),
             };
             Value::Map(set_inner(inner, rest, value)?)
